@@ -66,6 +66,9 @@ ASSUMPTIONS = [
     "**mapping arguments) built from helper callables that return plain data; expression rendering at large is C03's subject",
     "string annotations are compared in a module without PEP 563, where CPython reports the content of the string; "
     "a lambda's reported text is compared by evaluating it (its defaults are literals) and taking inspect.signature",
+    "definitions inside compound statements (if/elif/else, try/except/else/finally, match/case, with, for) and re-definitions are "
+    "generated only in branches CPython executes, every other branch being empty: the binding CPython ends up with is then the last "
+    "definition in source order, and which definition survives a branch that is NOT executed is left to C01",
     "definitions CPython binds to a property-like descriptor (property, cached_property) are modelled as attributes by Griffe and carry no signature to compare",
     "a failure counts with its case only if it reproduces when that case is checked alone in a pristine forked process; failures that "
     "depend on earlier visits are reported (once) only when the shard found no self-contained failure",
@@ -425,14 +428,14 @@ def check_decorated(case: dict) -> list[Fail]:
     ns = cpython_exec(code)
     mod = griffe_visit(code)
     fails: list[Fail] = []
-    for scope, name, it in G.decorated_names(case):
+    for scope, name, it in G.final_definitions(case):
         decos, binds = G.DECORATORS[it["deco"]]
         if binds == "prop":
             # CPython binds a property-like descriptor; Griffe models it as an attribute: no signature to compare
             continue
         gscope = member(mod, scope) if scope else mod
         pyobj = ns[scope].__dict__[name] if scope else ns[name]
-        where = ("async-" if it["async"] else "") + "def@" + ("+".join(decos) or "plain")
+        where = ("async-" if it["async"] else "") + "def@" + ("+".join(decos) or "plain") + ("" if not it.get("ctx") else ":in-" + G.CONTEXTS[it["ctx"]][0][-1].split()[0].rstrip(":"))
         what = f"{scope + '.' if scope else ''}{name}"
         sub = function_fails(where, what, member(gscope, name) if gscope is not None else None, unwrap(pyobj))
         fails += [Fail(f.clause, f.kind, f.message + "\n" + code) for f in sub]
@@ -555,6 +558,11 @@ def describe(case):
                 if binds == "prop":
                     seen_async_prop = True
             labels.add("deco:" + ("async " if it["async"] else "") + ("+".join(decos) or "plain"))
+            if it.get("ctx"):
+                labels.add("deco:in-" + " ".join(G.CONTEXTS[it["ctx"]][0][-1].split()[:2]).rstrip(":"))
+                nt = True
+            if it.get("redef"):
+                labels.add("deco:re-definition" + ("-in-compound-statement" if it.get("ctx") else ""))
         code = G.render_decorated_module(case)
         return (code if nt else None), sorted(labels), {"kind": "deco", "module": code}
     nt, labels = _prop_stats(case["classes"])
